@@ -43,7 +43,7 @@ def ty_text(t):
     return t[0]
 
 
-LLVM14_MISSING = {"empty-list-no-context", "pasted-def-use", "body-defvar-reads-field", "repeated-include", "named-args", "uninitialised-field", "untyped-question", "!exists", "!div", "!tolower", "!toupper", "!range", "!getdagarg", "!getdagname", "!setdagarg",
+LLVM14_MISSING = {"empty-list-no-context", "binary-literal-operand", "pasted-def-use", "body-defvar-reads-field", "repeated-include", "named-args", "uninitialised-field", "untyped-question", "!exists", "!div", "!tolower", "!toupper", "!range", "!getdagarg", "!getdagname", "!setdagarg",
                   "!setdagname", "!listremove", "!logtwo", "!listflatten", "!repr", "!initialized", "dump"}
 
 
@@ -276,7 +276,10 @@ class Gen:
         r = self.r
         k = t[0]
         if k == "int":
-            self.w(r.choice(["0", "1", "7", "42", "-3", "0x1F", "0b101", "+5"]))
+            lit = r.choice(["0", "1", "7", "42", "-3", "0x1F", "0b101", "+5"])
+            if lit == "0b101" and depth >= 1:
+                self.feat("binary-literal-operand")    # llvm-tblgen: bits<3>, not accepted where an int operand is required
+            self.w(lit)
         elif k == "bit":
             self.w(r.choice(["0", "1", "true", "false"]))
         elif k == "string":
@@ -306,6 +309,7 @@ class Gen:
                 self.w(")")
             else:
                 self.w("?")
+                self.feat("untyped-question")
         elif k == "class":
             self.record_literal(t, depth)
         else:
@@ -446,6 +450,7 @@ class Gen:
                 self.w("]")
             else:
                 self.w("?")
+                self.feat("untyped-question")
         elif t[0] == "bits":
             self.literal(t) if self.r.random() < 0.5 else self.w("{" + ", ".join("1" for _ in range(t[1])) + "}")
         elif t[0] == "dag":
@@ -463,7 +468,7 @@ class Gen:
             n, s = self.r.choice(ids)
             self.use(n, s.key, site="ident")
         elif t[0] == "class":
-            self.class_value(t[1], depth) if self.can_instantiate(t[1]) else self.w("?")
+            self.class_value(t[1], depth) if self.can_instantiate(t[1]) else (self.w("?"), self.feat("untyped-question"))
         elif t[0] == "list":
             self.w("[")
             for i in range(self.r.choice([1, 2])):
